@@ -48,9 +48,25 @@ def argv(cmd):
         return ["run", d]
     if cmd["op"] == "run2":
         return ["run", f"{d}/theory.yaml", f"{d}/operator.yaml"]
+    if cmd["op"] in INSPECTS:
+        return ["inspect", "-p", f"{d}/eko.tar", INSPECTS[cmd["op"]]]
     if cmd["op"] == "run2x":   # the operator card lives in the other location
         return ["run", f"{d}/theory.yaml", f"{DIRS[other(cmd['l'])]}/operator.yaml"]
     return ["run", f"{d}/theory.yaml", f"{d}/operator.yaml", "out.tar"]
+
+
+INSPECTS = {"insp_mu2": "mu2grid", "insp_cards": "cards"}
+
+
+def inspected(path, what):
+    """What the library reads from the archive, as the normalised JSON text `eko inspect` should print."""
+    import json
+
+    from eko.io import EKO
+
+    with EKO.read(path) as e:
+        data = e.mu2grid if what == "mu2grid" else dict(theory=e.theory_card.raw, operator=e.operator_card.raw)
+    return json.dumps(json.loads(json.dumps(data)), sort_keys=True)
 
 
 def other(l):
@@ -243,7 +259,16 @@ def run_sequence(args):
                     st["msg"] = f"theory {dt} operator {do}"
                 # the example cards take minutes to solve: continue with tiny ones
                 write_cards(d, *tiny)
-            if cmd["op"] != "gen" and p.returncode == 0:
+            if cmd["op"] in INSPECTS and p.returncode == 0:
+                import json
+
+                try:
+                    got = json.dumps(json.loads(p.stdout), sort_keys=True)
+                    st["ops"] = "same" if got == inspected(out_path(root, cmd["l"]), INSPECTS[cmd["op"]]) else "differ"
+                except Exception as ex:  # noqa: BLE001
+                    st["ops"] = "differ"
+                    st["msg"] = f"inspect output unreadable: {type(ex).__name__}"
+            elif cmd["op"] != "gen" and p.returncode == 0:
                 tgt = out_path(root, target(cmd))
                 if post["out"][target(cmd)] == "eko":
                     try:
